@@ -8,6 +8,11 @@ with the key token at most 250 bytes without separators (C20's contract, re-esta
 numeric tokens, <bytes> == len of the *encoded* data, and exactly the batch is sent once. An illegal key or a
 non-integer expire/flags raises MemcacheIllegalInputError with nothing sent (multi-key atomicity).
 get / gets / gat / gats: the command written is '<verb>[ <exptime>] <prefix+enc(key)>\\r\\n', sent once, only for a legal key.
+get_many / gets_many (key collection of any length, re-iterable or one-shot): '<verb> <k1> <k2> ...\\r\\n' with token j ==
+prefix+enc(key j), a legal KEY token (proved at a fresh position, split by key kind), sent once, nothing sent if one key is
+illegal; the wrappers return {} without an exchange for an empty collection of ANY kind and otherwise call _fetch_cmd with at
+least one key (requires of its contract: 'get\\r\\n' is not a command - the obligation that failed for empty iterators before
+/repo 0fd770a).
 set / add / replace / append / prepend / cas: one _store_cmd call with the verb of the method's own name and the caller's
 key, value, expire, flags; cas tokens are decimal.
 delete / delete_many / incr / decr / touch / flush_all: the single command handed to _misc_cmd equals the documented format with
@@ -22,7 +27,7 @@ ASSUMPTIONS = ["Client.encoding is ascii or utf-8 (ASCII-compatible); other code
                "integer arguments are within the protocol's ranges (flags < 2^32, exptime signed 64-bit, delta/cas < 2^64)",
                "mixed bytes/str keys within one dict are covered element-wise (each item independently)"]
 NOT_COVERED = ["raw_command (sends caller bytes by design)", "HashClient multi-key atomicity (excluded by the statement)",
-               "command text of get_many/gets_many/stats/cache_memlimit/version/quit/shutdown (not yet mechanised)",
+               "command text of stats/cache_memlimit/version/quit/shutdown (not yet mechanised)",
                "uniqueness of the strict parse (lemma strict-parse of DESIGN 4.2 is not mechanised; token classes are proved)",
                "the empty prefixed key: recorded known finding, re-confirmed by witness replay each run"]
 BUDGET = {"quick": 30, "thorough": 120}
@@ -38,8 +43,11 @@ def build(E, tier):
     if only in (None, "misc"):
         cm.verify_public_misc(E)
         cm.verify_fetch_cmd(E, names=("get", "gets", "gat", "gats") if tier == "thorough" else ("get", "gats"))
+        cm.verify_fetch_many(E, names=("get", "gets") if tier == "thorough" else ("get",),
+                             iter_kinds=("re-iterable", "one-shot") if tier == "thorough" else ("one-shot",))
         cm.verify_public_store(E)
         cm.verify_public_fetch(E)
+        cm.verify_public_fetch_many(E)
     cm.verify_delete_many(E)
 
 
@@ -146,6 +154,8 @@ for prefix in (b"", b"p:", b"q" * 10):
           ops.append(("touch", lambda c: c.touch(key, -1, noreply=True), lambda: [(b"touch", k, -1, True)]))
           ops.append(("get", lambda c: c.get(key), lambda: [(b"get", (k,))]))
           ops.append(("gat", lambda c: c.gat(key, 9), lambda: [(b"gat", 9, (k,))]))
+          ops.append(("get_many", lambda c: c.get_many([b"first", key, "last"]), lambda: [(b"get", (prefix + b"first", k, prefix + b"last"))]))
+          ops.append(("gets_many-iterator", lambda c: c.gets_many(iter([key, b"other"])), lambda: [(b"gets", (k, prefix + b"other"))]))
           ops.append(("set-str-flags", lambda c: c.set(key, b"v", noreply=True, flags="0 0 1 noreply\r\nx\r\nset q"), None))
           ops.append(("set_many-one-illegal", lambda c: c.set_many({b"ok": b"1", key: b"2", b"bad key": b"3"}, noreply=True), None))
           for name, call, want in ops:
@@ -182,6 +192,20 @@ for prefix in (b"", b"p:", b"q" * 10):
   if bad: break
 out(cases=n, failing=bad)
 '''
+MANY_REPLAY = r'''
+from fakesock import FakeModule
+from pymemcache.client.base import Client
+m = FakeModule([b"ERROR\r\n"])
+c = Client(("h", 1), socket_module=m)
+ks = [b"k%d" % i for i in range(payload["n"])]
+try:
+    r = getattr(c, payload["meth"])(iter(ks) if payload["oneshot"] else ks); raised = None
+except Exception as e:
+    r, raised = None, repr(e)
+sent = m.sent
+want = b"" if not ks else (b"get " if payload["meth"] == "get_many" else b"gets ") + b" ".join(ks) + b"\r\n"
+out(sent=sent, raised=raised, malformed=(sent != want))
+'''
 _rc = {}
 
 
@@ -190,6 +214,15 @@ def replay(ob, res):
     protocol text, non-ASCII text with utf-8, bool / huge integers, non-integer flags, one illegal key in set_many) is
     sent through a fake socket module and the written bytes are parsed by a strict memcached parser."""
     from pyvc import replay as rp
+    if ob.meta.get("many") and "n_keys" in (res.model or {}):
+        # counter-model of a get_many / gets_many wrapper obligation: a key collection of that length and kind
+        nk, meth, ik = int(res.model["n_keys"]), ob.meta["many"], ob.meta["iter_kind"]
+        code = MANY_REPLAY
+        obs = rp.run_real(code, {"n": nk, "meth": meth, "oneshot": ik == "one-shot"})
+        if obs.get("malformed"):
+            return {"reproduced": True, "call": "Client.%s(%s) with %d keys" % (meth, "iter([...])" if ik == "one-shot" else "[...]", nk),
+                    "input": {"n_keys": nk, "collection": ik}, "observed": obs}
+        return {"reproduced": False, "searched": obs}
     if "r" not in _rc:
         _rc["r"] = rp.run_real(REPLAY, {}, timeout=600)
     obs = _rc["r"]
